@@ -987,12 +987,43 @@ class Gen:
             [(0, 1), (1, 2), (2, 3), (3, 0), (4, 5), (5, 6), (6, 7), (7, 4), (0, 4), (1, 5), (2, 7), (3, 6)]),
     )
 
+    def random_regular(self, n, k):
+        rng = self.rng
+        for _ in range(60):
+            stubs = [i for i in range(n) for _ in range(k)]
+            rng.shuffle(stubs)
+            bonds = set()
+            ok = True
+            for i in range(0, len(stubs), 2):
+                x, y = stubs[i], stubs[i + 1]
+                if x == y or frozenset((x, y)) in bonds:
+                    ok = False
+                    break
+                bonds.add(frozenset((x, y)))
+            if ok:
+                return sorted(tuple(sorted(b)) for b in bonds)
+        return None
+
+    def random_regular_pair(self):
+        n, k = self.rng.choice(((6, 3), (7, 4), (8, 3), (8, 4), (9, 4), (10, 3), (10, 4), (8, 5)))
+        a = self.random_regular(n, k)
+        b = self.random_regular(n, k)
+        if a is None or b is None:
+            return None
+        return n, a, b
+
     def tx_wlpair(self):
         rng = self.rng
         if len(self.w.slots) + 3 > self.w.max_slots:
             for s in self.graphs(unlocked=True)[:3]:
                 yield dict(k="drop", s=s)
         n, ba, bb = rng.choice(self.WL_PAIRS)
+        if rng.random() < 0.45:
+            # two random k-regular graphs on n atoms of one element: colour
+            # refinement can never separate them, cages and polycycles included
+            reg = self.random_regular_pair()
+            if reg is not None:
+                n, ba, bb = reg
         kind = rng.choice(self.cfg["classes"])
         z = rng.choice(self.cfg["elements"])
         ids = list(self.cfg["ids"])
